@@ -102,6 +102,42 @@ def inline_single_return_calls(fn, expr, module_find=None, depth: int = 0):
     return ast.fix_missing_locations(out)
 
 
+def deref(fn, e, depth: int = 0):
+    """the expression a local name stands for: when `e` is a name bound exactly once in `fn` (a plain `name = <expr>`, not a parameter, not
+    a loop / with / except target), the bound expression — followed through further such names.  Lets a rule read `t = g(x); f(t)` like
+    `f(g(x))` without caring whether the value was given a name."""
+    while isinstance(e, ast.Name) and depth < 4:
+        ps = {a.arg for a in fn.args.args + fn.args.kwonlyargs + fn.args.posonlyargs} if isinstance(fn, (ast.FunctionDef, ast.AsyncFunctionDef)) else set()
+        if e.id in ps:
+            return e
+        stores = [x for x in ast.walk(fn) if isinstance(x, ast.Name) and x.id == e.id and not isinstance(x.ctx, ast.Load)]
+        binds = [a for a in ast.walk(fn) if isinstance(a, ast.Assign) and len(a.targets) == 1 and isinstance(a.targets[0], ast.Name) and a.targets[0].id == e.id]
+        if len(stores) != 1 or len(binds) != 1:
+            return e
+        e = binds[0].value
+        depth += 1
+    return e
+
+
+def expand(fn, e, depth: int = 3):
+    """a copy of `e` in which every local name that is bound exactly once in `fn` (see deref) is replaced by the expression it names,
+    repeatedly: the expression as it reads when no intermediate value was given a name.  Names bound in loops, parameters and names with
+    several bindings stay."""
+    import copy as _copy
+    if depth <= 0:
+        return e
+
+    class _E(ast.NodeTransformer):
+        def visit_Name(self, node):
+            if isinstance(node.ctx, ast.Load):
+                v = deref(fn, node)
+                if v is not node:
+                    return ast.copy_location(expand(fn, _copy.deepcopy(v, {id(getattr(v, "_parent", None)): getattr(v, "_parent", None)}), depth - 1), node)
+            return node
+    par = getattr(e, "_parent", None)
+    return _E().visit(_copy.deepcopy(e, {id(par): par} if par is not None else {}))
+
+
 def specialise_call(helper, call):
     """a copy of `helper` as it runs for this call: parameters bound to literal arguments (or literal defaults) are replaced by the
     literals, `if` statements whose test became a literal are pruned to the arm taken, and f-string slots that became string literals are
